@@ -38,7 +38,17 @@ type Ptr struct {
 	Base  string
 	Root  types.Type
 	Path  []Step
-	Fresh bool // allocated in the function under verification: non-nil
+	Fresh bool // non-nil by construction (allocation, element address): no nil check
+	New   bool // the object was allocated by the function under verification
+	Own   *Owner
+}
+
+// Owner records that a slice was loaded from field Key of object Base, so
+// that element writes can trigger the hooks declared for "Key[*]".
+type Owner struct {
+	Key  string
+	Base string
+	Root types.Type
 }
 
 type Record struct {
@@ -49,6 +59,8 @@ type Record struct {
 type SliceV struct {
 	Base, Off, Len, Cap string
 	Elem                types.Type
+	Own                 *Owner
+	New                 bool // backing array allocated by the function under verification
 }
 
 type Iface struct {
@@ -173,6 +185,9 @@ func mask(w int) uint64 {
 // ---------- type names / leaves ----------
 
 func typeKey(t types.Type) string {
+	if b, ok := t.(*types.Basic); ok && b.Kind() != types.UnsafePointer && b.Kind() < types.UntypedBool && b.Kind() != types.Invalid {
+		return types.Typ[b.Kind()].Name() // byte -> uint8, rune -> int32
+	}
 	return types.TypeString(t, func(p *types.Package) string { return p.Name() })
 }
 
